@@ -26,7 +26,9 @@ from .common import muted, rng, shard_slice, mask
 LEVEL = 'exploration'
 RULE = ('request: generated streams of well-formed commands (I<hex>=, <hex>!, O<hex>?, K<hex>; with 1-8 upper-case digits incl. '
         'leading zeros, K counts 0-40, optional newline separators as the library\'s own proxy sends) x number-wire widths x '
-        'oblivious producer valid gaps; response: (value, digit count, ready schedule) triples run back to back on one instance. '
+        'oblivious producer valid gaps (short gaps everywhere, plus one pause of 2**8 .. 2**17 (thorough 2**20) cycles at every '
+        'position of a command); response: (value, digit count, ready schedule) triples run back to back on one instance, plus '
+        'one not-ready run of the same lengths before every character of a response. '
         'An evaluation is one command judged over its window or one response judged over its handshakes; a non-trivial '
         'distinct case is (command kind, digit count, number, wire widths, preceding command kind) resp. (value, count, ready '
         'mode, max gap) -- all are non-trivial (each moves a strobe or emits characters); distinct by content')
@@ -392,6 +394,83 @@ def expand_req(k, seed, tier):
                 producer=producer)
 
 
+# long pauses: a geometric family of pause lengths at every position of a command (producer side) / of a response (consumer side)
+# (just past a power of two, with slack for the few cycles the blocks spend outside their waiting state per character)
+PAUSES = {'quick': [2 ** 8 + 16, 2 ** 10 + 16, 2 ** 12 + 16, 2 ** 14 + 16, 2 ** 16 + 16, 2 ** 17 + 16],
+          'thorough': [2 ** 8 + 16, 2 ** 10 + 16, 2 ** 12 + 16, 2 ** 14 + 16, 2 ** 16 - 16, 2 ** 16 + 16, 2 ** 17 + 16, 2 ** 18 + 16, 2 ** 20 + 16]}
+PAUSE_POSITIONS = ('after_letter', 'between_digits', 'before_terminator', 'between_commands', 'after_newline')
+
+
+def plan_req_pauses(tier):
+    """(pause length, position, command kind hit, variant): short pauses for every kind x position, the expensive ones (> 2**14)
+    once per position with the kind rotating (quick) / for every kind (thorough)."""
+    out = []
+    j = 0
+    for L in PAUSES[tier]:
+        for pi, pos in enumerate(PAUSE_POSITIONS):
+            kinds = 'IVOK' if (L <= 2 ** 13 or tier != 'quick') and L < 2 ** 20 else 'IVOK'[(pi + j) % 4]
+            for kind in kinds:
+                out.append((L, pos, kind, j))
+                j += 1
+    return out
+
+
+def expand_req_pause(spec, seed):
+    """a stream of three commands; the middle one (3-8 digits, of the given kind) is hit by ONE pause of L valid-less cycles at the
+    given position; every other character follows with the short gaps of the ordinary classes."""
+    L, pos, kind, j = spec
+    rnd = rng(seed, 'C20', 'req_pause', L, pos, kind, j)
+    cmds = gen_stream(rnd, 3)
+    nd = rnd.choice([3, 4, 5, 8])
+    cmds[1] = ['K', nd, rnd.choice([17, 18, 33, KMAX, rnd.randrange(16, KMAX + 1)])] if kind == 'K' else [kind, nd, gen_number(rnd, nd) | (rnd.randrange(1, 16) << (4 * nd - 4)) | rnd.randrange(1, 16)]     # first and last digit non-zero
+    sep = [0, 1 if pos == 'after_newline' else 0, 0]
+    text, roles = stream_text(cmds, sep)
+    gaps = [rnd.choice([0, 0, 1, 3]) for _ in text]
+    mine = [i for i, (c, r) in enumerate(roles) if c == 1]
+    body = [i for i in mine if roles[i][1] in ('first', 'body')]
+    if kind != 'V':
+        digits = body[1:]
+        letter_next = body[1]
+    else:
+        digits = body
+        letter_next = body[1]                 # no letter: the pause follows the first digit
+    term = next(i for i in mine if roles[i][1] == 'term')
+    at = dict(after_letter=letter_next, between_digits=digits[1 + rnd.randrange(len(digits) - 1)], before_terminator=term,
+              between_commands=mine[0], after_newline=term + 2)[pos]     # gaps[i] = idle cycles BEFORE character i is offered
+    gaps[at] = L
+    producer = ['python', 'block_after', 'block_before'][j % 3]
+    return dict(part='request', widths=list(WIDTHS[j % len(WIDTHS)]), cmds=cmds, sep=sep, gaps=gaps, gap_mode='pause', producer=producer,
+                pause=dict(cycles=L, position=pos, kind=kind, before_char=at))
+
+
+def plan_resp_pauses(tier):
+    out = []
+    j = 0
+    for L in PAUSES[tier]:
+        for count in ([2, 5] if L <= 2 ** 15 or tier != 'quick' else [3]):
+            if L >= 2 ** 20 and count != 2:
+                continue
+            for p in range(count + 2):
+                out.append((L, count, p, j))
+                j += 1
+    return out
+
+
+def expand_resp_pause(spec, seed):
+    """one response of `count` digits; the consumer is ready except for ONE run of L not-ready cycles that begins 1 + 2p cycles after
+    start_resp, i.e. (the encoder offers a character every other cycle) before character p = 0 ('=') .. count+1 ('!') is taken.
+    The schedule is a function of time only."""
+    L, count, p, j = spec
+    rnd = rng(seed, 'C20', 'resp_pause', L, count, p, j)
+    value = gen_value(rnd, count) | (rnd.randrange(1, 16) << (4 * count - 4))
+    idle = rnd.randrange(0, 4)
+    hm = [None, ['pulse_only'], None][j % 3]
+    a = idle + 1 + 2 * p
+    bits = [1] * a + [0] * L + [1] * (4 * (count + 4))
+    return dict(part='response', items=[[value, count, idle, hm]], mode='pause', maxgap=L, hold='held' if hm is None else 'pulse_only',
+                vin_width=32, ready_bits=bits, pause=dict(cycles=L, position=p))
+
+
 def run_req(run, case, agg):
     try:
         tr = simulate_req(case)
@@ -419,6 +498,15 @@ def run_req(run, case, agg):
     pk = case.get('producer', 'python') + '/' + case['gap_mode']
     agg['producers'][pk] = agg['producers'].get(pk, 0) + obs['commands_judged']
     agg['valid_low_cycles'] += tr['valid'].count(0)
+    if case.get('pause'):
+        # what the monitor saw: the longest run of valid-less cycles between two handshakes of the hit command / around it
+        cons = [t for t in range(tr['cycles']) if tr['valid'][t] and tr['ready'][t]]
+        at = case['pause']['before_char']
+        seen = cons[at] - cons[at - 1] - 1 if 0 < at < len(cons) else 0
+        if seen >= case['pause']['cycles'] and not tr['stall']:
+            k = '%s: pause >= %d cycles' % (case['pause']['position'], case['pause']['cycles'])
+            agg['req_pauses'][k] = agg['req_pauses'].get(k, 0) + (1 if obs['commands_judged'] >= 2 else 0)
+            agg['req_pause_kinds'][case['pause']['kind']] = agg['req_pause_kinds'].get(case['pause']['kind'], 0) + 1
     if tr['stall'] is not None:
         agg['stalls'].append(dict(stream=tr['text'][:40], **tr['stall']))
     for f in findings[:1]:
@@ -680,6 +768,16 @@ def run_resp(run, case, agg):
         run.nt(hash(('resp', value, count, case['mode'], case['maxgap'], hname)))
         agg['counts'][str(count)] = agg['counts'].get(str(count), 0) + 1
     agg['resp_modes'][case['mode']] = agg['resp_modes'].get(case['mode'], 0) + obs['responses_judged']
+    if case.get('pause'):
+        # position actually hit: characters taken before the long not-ready run, and the run really kept a character waiting
+        rdy, vld = tr['ready'], tr['valid']
+        lo = next((t for t in range(tr['cycles']) if not rdy[t]), None)
+        if lo is not None and obs['responses_judged']:
+            before = sum(1 for t in range(lo) if rdy[t] and vld[t])
+            hs = [t for t in range(tr['cycles']) if rdy[t] and vld[t]]
+            if before < case['items'][0][1] + 2 and hs and hs[-1] >= lo + case['pause']['cycles']:      # the response spans the whole pause
+                k = 'before character %d: not ready >= %d cycles' % (before, case['pause']['cycles'])
+                agg['resp_pauses'][k] = agg['resp_pauses'].get(k, 0) + 1
     for f in findings[:1]:
         it = case['items'][f['index']]
         value, count, idle = it[:3]
@@ -939,6 +1037,10 @@ def run_check(run, tier, seed, shard):
     run.assume('the character port of the decoder is driven three ways: from Python between clock edges, and by a clocked ready/valid '
                'source block instantiated before resp. after the decoder (the simulator states that clocked blocks need no order); '
                'both sides of the port must agree on which characters were transferred')
+    run.assume('long-pause classes: "whatever the pacing" includes a producer that goes silent for up to 2**17+1 (thorough 2**20+1) cycles '
+               'after the command letter, between two digits, before the terminator, between commands and after the optional newline, '
+               'and a consumer that is not ready for as long before any character of a response; the decoder has no notion of time in '
+               'the property, so the same pulses and numbers are required')
     run.assume('"whatever the consumer\'s pacing" is judged as bounded progress: ready schedules are oblivious with not-ready runs <= G '
                'and the "!" must be taken within (count+2)*2*(G+1)+4 cycles of start_resp (the block looks at ready twice per '
                'character, so the design-time bound (count+2)*(G+3) is too tight for G >= 2 and is not used)')
@@ -946,7 +1048,7 @@ def run_check(run, tier, seed, shard):
     nsys = 400 if tier == 'quick' else 16000
     deadline = time.time() + (420 if tier == 'quick' else 2400)
     agg = dict(digits={}, pulses={}, pulse_len={}, kinds={}, producers={}, holds={}, restarts=0, vin_widths={}, sys_sessions=0, sys_responses=0, sys_changed=0, sys_cycles=0, chars=0, valid_low_cycles=0, stalls=[], counts={}, resp_modes={},
-               resp_max_frac_of_bound=0.0, ready_low_cycles=0)
+               resp_max_frac_of_bound=0.0, ready_low_cycles=0, req_pauses={}, req_pause_kinds={}, resp_pauses={})
     skipped = 0
     for k in shard_slice(range(nreq), shard):
         if time.time() > deadline:
@@ -960,6 +1062,20 @@ def run_check(run, tier, seed, shard):
                             commands_judged=obs['commands_judged'], pulses_seen=obs['pulses'], cycles=tr['cycles']))
         if run.too_many:
             break
+    for spec in shard_slice(plan_req_pauses(tier), shard):      # long producer pauses at every position of a command
+        if time.time() > deadline:
+            skipped += 1
+            continue
+        if run.too_many:
+            break
+        run_req(run, expand_req_pause(spec, seed), agg)
+    for spec in shard_slice(plan_resp_pauses(tier), shard):     # long consumer pauses before every character of a response
+        if time.time() > deadline:
+            skipped += 1
+            continue
+        if run.too_many:
+            break
+        run_resp(run, expand_resp_pause(spec, seed), agg)
     for k in shard_slice(range(nresp), shard):
         if time.time() > deadline:
             skipped += 1
@@ -1003,6 +1119,9 @@ def run_check(run, tier, seed, shard):
     run.extra['system_responses_judged'] = agg['sys_responses']
     run.extra['system_responses_differing_from_previous_capture'] = agg['sys_changed']
     run.extra['request_valid_low_cycles'] = agg['valid_low_cycles']
+    run.extra['request_long_pause_streams_judged_by_position_and_length'] = agg['req_pauses']
+    run.extra['request_long_pause_by_command_kind'] = agg['req_pause_kinds']
+    run.extra['response_long_pause_responses_judged_by_position_and_length'] = agg['resp_pauses']
     run.extra['response_digit_count_hist'] = agg['counts']
     run.extra['response_by_ready_mode'] = agg['resp_modes']
     run.extra['response_ready_low_cycles'] = agg['ready_low_cycles']
@@ -1021,6 +1140,15 @@ def post_merge(run, tier, seed):
             run.counters.get('commands_judged'), run.counters.get('responses_judged'), run.counters.get('response_handshakes')))
     if not run.extra.get('system_responses_differing_from_previous_capture'):
         run.inconclusive.append('no end-to-end answer was observed whose value differed from the previous capture of that output')
+    rp = run.extra.get('request_long_pause_streams_judged_by_position_and_length', {})
+    missing = ['%s/%d' % (pos, L) for L in PAUSES[tier] for pos in PAUSE_POSITIONS if not rp.get('%s: pause >= %d cycles' % (pos, L))]
+    if missing:
+        run.inconclusive.append('long producer pauses not observed (pause seen on the port and the commands judged) for %s' % missing[:6])
+    sp = run.extra.get('response_long_pause_responses_judged_by_position_and_length', {})
+    for L in PAUSES[tier]:
+        got = [k for k in sp if k.endswith('>= %d cycles' % L)]
+        if len(got) < 4:
+            run.inconclusive.append('long consumer pauses of %d cycles were observed at %d character positions only' % (L, len(got)))
     if not run.extra.get('request_valid_low_cycles') or not run.extra.get('response_ready_low_cycles'):
         run.inconclusive.append('the environments never stalled (no valid gap / no not-ready cycle)')
 
